@@ -21,7 +21,6 @@
 package internal
 
 import (
-	"bytes"
 	"strconv"
 )
 
@@ -54,7 +53,22 @@ func UnquoteDoubleQuoted(in []byte) (string, error) {
 //	unescapeQuotes([]byte{'\\', '"'}, '"') == []byte{'"'}
 //	unescapeQuotes([]byte{'\\', '\''}, '\'') == []byte{'\''}
 func unescapeQuotes(in []byte, quote byte) []byte {
-	return bytes.ReplaceAll(in, []byte{'\\', quote}, []byte{quote})
+	// Escape sequences are consumed left to right: a backslash escapes the
+	// byte after it, so in `\\'` the quote is not escaped.
+	out := make([]byte, 0, len(in))
+	for i := 0; i < len(in); i++ {
+		if in[i] == '\\' && i+1 < len(in) {
+			if in[i+1] == quote {
+				out = append(out, quote)
+			} else {
+				out = append(out, in[i], in[i+1])
+			}
+			i++
+			continue
+		}
+		out = append(out, in[i])
+	}
+	return out
 }
 
 // swapQuotes replaces all single quotes with double quotes and all double
